@@ -77,6 +77,15 @@ def cases(draw):
         n = g.i(1, min(3, len(hidden_cands)))
         start = g.i(0, len(hidden_cands) - 1)
         items = [hidden_cands[(start + j) % len(hidden_cands)] for j in range(n)]
+        if g.b(0.35):
+            # constraints over negated literals: or(not a, b), oneof(not a, b, c)
+            neg = [g.b(0.5) for _ in items]
+            lits = [["not", x] if ng else x for x, ng in zip(items, neg)]
+            val_ = lambda l: (not model[repr(l[1])]) if l[0] == "not" else model[repr(l)]
+            nt = sum(1 for l in lits if val_(l))
+            if (k == "oneof" and nt == 1) or (k == "or" and nt >= 1):
+                cons.append([k, lits])
+            continue
         trues = [x for x in items if model[repr(x)]]
         if k == "oneof":
             if len(trues) == 0:
@@ -99,11 +108,11 @@ def cases(draw):
             cons.append(["or", items])
     # soundness of the generator: keep only constraints the hidden model satisfies (always satisfiable)
     def holds(c):
-        n = sum(1 for x in c[1] if model[repr(x)])
+        n = sum(1 for x in c[1] if ((not model[repr(x[1])]) if x[0] == "not" else model[repr(x)]))
         return c[0] == "unknown" or (c[0] == "oneof" and n == 1) or (c[0] == "or" and n >= 1)
 
     cons = [c for c in cons if holds(c)]
-    hidden = {repr(x) for c in cons for x in c[1]}
+    hidden = {repr(x[1] if x[0] == "not" else x) for c in cons for x in c[1]}
     # explicit values only on non-hidden ground fluents
     p["init"] = [e for e in p["init"] if repr(e[0]) not in hidden]
     # sensing actions
@@ -208,7 +217,7 @@ def check(ctx, case):
         raise Violation(f"constructor-exception:{type(e).__name__}", f"SimulatedExecutionEnvironment(problem) raised {e!r}", case)
     ref = RefSim(p, check_bounds=False, check_invariants=False)
     exp0 = expected_initial(case)
-    hidden = {repr(x) for c in case["constraints"] for x in c[1]}
+    hidden = {repr(x[1] if x[0] == "not" else x) for c in case["constraints"] for x in c[1]}
 
     def sense_all(where):
         st_ = {}
@@ -239,6 +248,8 @@ def check(ctx, case):
             raise Violation(f"initial-value-differs:{src.replace(' ', '-')}", f"non-hidden {key[0]}{list(key[1])}: declared initial value {want} ({src}), environment starts with {got}", case)
 
     def val(x):
+        if x[0] == "not":
+            return not val(x[1])
         return s[(x[1], tuple(a[1] for a in x[2:]))]
 
     for k, items in case["constraints"]:
